@@ -596,6 +596,15 @@ example : C14.monitor demoCase0 (modelObs zeroOracle 11 demoCase0 (demoRun "f10"
   simp only [modelObs_eq_S]
   decide +kernel
 
+/-- not covered by the theorem (`hcont`): a run that continues after the last normal packet goes
+    on to serve the queued NormalRecv events and ends with an empty queue; on the demo case the
+    monitor accepts that observation as well (11 + 1 iterations) -/
+example : (modelOut zeroOracle 100 demoCase0 (demoRun "u" 0 0 true false false) ()).stop = .queueEmpty ∧
+    (modelOut zeroOracle 100 demoCase0 (demoRun "u" 0 0 true false false) ()).stream.length = 12 ∧
+    C14.monitor demoCase0 (modelObs zeroOracle 100 demoCase0 (demoRun "u" 0 0 true false false) ()) = none := by
+  simp only [modelObs_eq_S]
+  decide +kernel
+
 /-- with the padding machine on the client side the monitor does not apply -/
 example : C14.monitor demoCase (modelObs zeroOracle 100 demoCase (demoRun "u" 0 40 true false false) ()) = none := by
   simp only [modelObs_eq_S]
